@@ -47,3 +47,10 @@ PROP = dict(
         "LegacyDec limit (stated as calc_guard); beyond it the real code panics and the model returns None (compared by the harness)",
     ],
 )
+
+# library-level correspondence (Lib/SdkInt.v, Lib/SdkDec.v against the real cosmossdk.io/math), suite LIB
+PROP["suites"] = list(PROP["suites"]) + ["LIB"]
+PROP["coq"] = list(PROP["coq"]) + ["Check/LibCheck"]
+PROP["codes"]["LIB"] = {1: ("sdkmath-Int-operation-differs-from-SdkInt", "mismatch"),
+                        2: ("sdkmath-LegacyDec-operation-differs-from-SdkDec", "mismatch"),
+                        3: ("checked-and-unchecked-power-differ", "mismatch")}
